@@ -1,5 +1,5 @@
-(* C05 — a successful edit yields exactly the requested attribute change (model level), and the silent loss of edits
-   inside nested explicit sets (finding F-23) as a refutation witness of the full statement. *)
+(* C05 — a successful edit yields exactly the requested attribute change (model level), and the repaired
+   re-targeting of paths through explicit nested sets (finding F-23, fixed). *)
 From Coq Require Import List Ascii String Bool Arith.
 Import ListNotations.
 From E Require Import EditModel EditRun EditProofs EditFrame EditAppend EditClosed EditClosedOps EditFindings.
@@ -20,20 +20,31 @@ Theorem C05_new_binding_last : forall d s k t, parse_doc d = Ok s -> (rvals s = 
 Proof. exact EditClosed.C04_fresh_root_parsed. Qed.
 Print Assumptions C05_new_binding_last.
 
-(* FULL: "a successful set changes what is printed".  REFUTED on the faithful model (finding F-23):
-   { meta = { foo.version = true; }; }, set meta.foo.z 7 reports success and the printed document is unchanged *)
+(* paths through explicit nested sets (E.EditDeep, mirrors the repair 99873d2): outside the re-targeting branch the edit IS the root-level step the
+   theorems above speak about; inside it, it is the root-level step of the inner set, written back *)
+From E Require Import EditDeep.
+Theorem C05_deep_is_root_step : forall f s segs v, inner_target s segs = None -> m_set_deep f s segs v = m_set s segs v.
+Proof. exact set_deep_shallow. Qed.
+Print Assumptions C05_deep_is_root_step.
+Theorem C05_deep_leaf_is_root_step : forall f s segs v l, find_leaf s SRoot segs = Some l -> m_set_deep f s segs v = m_set s segs v.
+Proof. exact set_deep_leaf. Qed.
+Print Assumptions C05_deep_leaf_is_root_step.
+Theorem C05_deep_retarget : forall f s segs v i vs o m,
+  find_leaf s SRoot segs = None -> inner_target s segs = Some i -> val_of s i = VSet vs o m ->
+  m_set_deep (S f) s segs v = (unfocus s i (fst (m_set_deep f (focus s vs o m) (tl segs) v)), snd (m_set_deep f (focus s vs o m) (tl segs) v)).
+Proof. exact set_deep_retarget. Qed.
+Print Assumptions C05_deep_retarget.
+(* the witness of finding F-23 ("success reported, printed document unchanged"), evaluated on the repaired functions: the edit shows *)
+Theorem C05_F23_repaired :
+  match after23 with
+  | Some (st1, Ok tt) => tree_eqb 100 (view st1) (TS [(s "meta", TS [(s "foo.version", TA (s "true")); (s "foo.z", TA (s "7"))])]) = true
+  | _ => False end.
+Proof. exact F23_repaired. Qed.
+Print Assumptions C05_F23_repaired.
+(* FULL statement, still open in general (proved: leaf overwrite, root insertion, removal at the root; checked by correspondence elsewhere) *)
 Definition C05_success_visible_full : Prop :=
-  forall d s0 segs t, parse_doc d = Ok s0 -> snd (m_set s0 segs (VAt t)) = Ok tt ->
-  tree_eqb 100 (view (fst (m_set s0 segs (VAt t)))) (view s0) = false \/ exists l, find_leaf s0 SRoot segs = Some l.
-Theorem C05_success_visible_full_refuted : ~ C05_success_visible_full.
-Proof.
-  intros H.
-  destruct (parse_doc d23) as [st0|e] eqn:E; [|vm_compute in E; discriminate].
-  specialize (H d23 st0 [s "meta"; s "foo"; s "z"] (s "7") E).
-  assert (Hs : st0 = match parse_doc d23 with Ok x => x | Err _ => st0 end) by (rewrite E; reflexivity).
-  vm_compute in E. injection E as <-. vm_compute in H. destruct (H eq_refl) as [H1|[l H1]]; discriminate.
-Qed.
-Print Assumptions C05_success_visible_full_refuted.
+  forall d s0 segs t, parse_doc d = Ok s0 -> snd (set_deep s0 segs (VAt t)) = Ok tt ->
+  tree_eqb 100 (view (fst (set_deep s0 segs (VAt t)))) (view s0) = false \/ exists l, find_leaf s0 SRoot segs = Some l.
 
 (* removal: the binding is gone, every other top-level binding prints as before (see C04_rm_plain_root for the full
    statement); a name that is not bound is refused with KeyError and the state is unchanged *)
